@@ -148,3 +148,98 @@ func init() {
 		return 8
 	}})
 }
+
+// c10UnreachCase (UDP): a datagram that is validly encrypted by a registered user,
+// names a session the server does not know, and comes from a source address the
+// server cannot send to (the kernel refuses the destination: port 0, a broadcast
+// address, ...). The server's attempt to answer fails; that must stay that
+// peer's problem.
+func c10UnreachCase(c *Ctx) *Result {
+	r := rngFor(c.Seed, "C10-unreach", c.Idx)
+	typ := pick(r, byte(refcodec.DataC2S), byte(refcodec.AckC2S))
+	params := map[string]interface{}{"segment_type": refcodec.TypeName(typ)}
+	c.Out.Start("C10", fmt.Sprintf("C10-unreach/%d/%d", c.Seed, c.Idx), c.Seed, params)
+	res := &Result{Params: params, Obs: map[string]float64{}}
+	users := []UserSpec{{"alice", "alice-secret"}, {"mallory", "mallory-secret"}}
+	env, err := NewEnv(EnvCfg{UDP: true, Users: users})
+	if err != nil {
+		res.Verdict, res.Detail = Inconclusive, err.Error()
+		return res
+	}
+	defer env.Close()
+	cm, _ := env.NewClient(0, "")
+	cc, err := dial(cm)
+	if err != nil {
+		res.Verdict, res.Detail = Inconclusive, err.Error()
+		return res
+	}
+	ch := env.Expect(sessionID(cc))
+	cc.Write([]byte("hello"))
+	var sc net.Conn
+	select {
+	case sc = <-ch:
+	case <-time.After(30 * time.Second):
+		res.Verdict, res.Detail = Inconclusive, "canary session not accepted"
+		return res
+	}
+	go func() {
+		b := make([]byte, 4096)
+		for {
+			n, err := sc.Read(b)
+			if n > 0 {
+				sc.Write(b[:n])
+			}
+			if err != nil {
+				return
+			}
+		}
+	}()
+	b5 := make([]byte, 5)
+	io.ReadFull(cc, b5)
+	cred := refcodec.NewCred("mallory", "mallory-secret")
+	key := refcodec.KeyAt(cred.Hashed, time.Now().Unix())
+	from := &net.UDPAddr{IP: net.IPv4(10, 0, 6, 6), Port: 0}
+	env.Net.FailWritesTo(from.String())
+	for k := 0; k < 3; k++ {
+		m := refcodec.Meta{Type: typ, Timestamp: refcodec.Minute(time.Now().Unix()), SessionID: uint32(777000 + k), Seq: 1, UnAck: 0, Window: 100}
+		var payload []byte
+		if typ == refcodec.DataC2S {
+			payload = []byte("data for a session that does not exist")
+		}
+		env.Net.InjectDatagram(from, env.Cfg.serverAddr(), refcodec.EncodeDatagram(key, refcodec.RandNonce("mallory"), m, payload, refcodec.BuildOpts{}))
+		time.Sleep(100 * time.Millisecond)
+	}
+	res.Obs["hostile_messages"] = 3
+	failed := ""
+	msg, back := make([]byte, 100), make([]byte, 100)
+	for t := 0; t < 20 && failed == ""; t++ {
+		cc.SetDeadline(time.Now().Add(30 * time.Second))
+		if _, err := cc.Write(msg); err != nil {
+			failed = "write: " + err.Error()
+			break
+		}
+		if _, err := io.ReadFull(cc, back); err != nil {
+			failed = "read: " + err.Error()
+		}
+		res.Obs["canary_exchanges"]++
+		time.Sleep(500 * time.Millisecond)
+	}
+	res.Obs["canary_completed"] = 1
+	res.Shape = shapeHash("unreach", typ, c.Idx%4)
+	if failed != "" && isVirtual {
+		res.Verdict, res.Sig = Violated, "C10|udp|server|canary-user-disturbed|reply-to-unsendable-source-address"
+		res.Detail = fmt.Sprintf("after mallory's %s datagrams for unknown sessions from a source address the server cannot send to, alice's exchange failed (%s)", refcodec.TypeName(typ), failed)
+		return res
+	}
+	res.Verdict = Held
+	return res
+}
+
+func init() {
+	register(&Scenario{Name: "C10-unreach", Run: c10UnreachCase, Cases: func(t string) int {
+		if t == "thorough" {
+			return 100
+		}
+		return 6
+	}})
+}
